@@ -231,7 +231,7 @@ def step (s : State) (toks : List String) : State × String :=
   | ["@", "fident", _ty, _a] => (s, "ident-ok")
   | "@" :: "user" :: rest => (s, C19User.answer rest)
   | "@" :: cmd :: rest =>
-    if ["trop", "trsc", "trneg", "trpow", "recop", "recsc", "recneg", "recpow"].contains cmd then
+    if ["trop", "trsc", "trneg", "trpow", "recop", "recsc", "recneg", "recpow", "freal", "trreal", "recreal"].contains cmd then
       (s, C19Wrap.answer cmd rest)
     else (s, "bad-op")
   | _ => (s, "bad-op")
